@@ -64,6 +64,8 @@ func (c *MsgCase) Family() string {
 		return "M2-extra"
 	case strings.HasPrefix(c.ID, "N"):
 		return "M2-nested-plural"
+	case strings.HasPrefix(c.ID, "A"):
+		return "M2-msg-attributes"
 	case strings.HasPrefix(c.ID, "Y"):
 		return "M2-text-bytes"
 	case strings.HasPrefix(c.ID, "S"):
@@ -180,6 +182,21 @@ func MsgTag(meaning, desc, body string) string {
 		m = fmt.Sprintf(" meaning=%q", meaning)
 	}
 	return fmt.Sprintf("{msg%s desc=%q}%s{/msg}", m, desc, body)
+}
+
+// MsgTagAttrs spells a {msg} command with all its attributes: hidden, and the
+// meaning written out even if it is empty.  Attribute values are spelled as Go
+// string literals (what the unchanged parser unquotes them with).
+func MsgTagAttrs(meaning, desc, body string, hidden, explicitMeaning bool) string {
+	m := ""
+	if meaning != "" || explicitMeaning {
+		m = fmt.Sprintf(" meaning=%q", meaning)
+	}
+	h := ""
+	if hidden {
+		h = ` hidden="true"`
+	}
+	return fmt.Sprintf("{msg%s desc=%q%s}%s{/msg}", m, desc, h, body)
 }
 
 // Template spells one template with exactly the given params.
